@@ -1,31 +1,83 @@
 (* Properties/C08.v — C08: a broken or garbled server stream fails client calls; it never hangs them.
-   Statements only; proofs in Proofs/ATPClientFault.v, Proofs/ATPClient.v.  Model: ATP/Client.v with a fault script
-   (`se_fault = Some (n, f)`: the peer's (n+1)-th emission is the sticky fault f; `se_wfail`: the write side fails),
-   ATP/Handshake.v for ReadSchema and the v1 path.
+   Statements only; proofs in Proofs/ATPClientFault.v, Proofs/ATPClient.v, Proofs/ATPClientInv.v (the conservation
+   invariant), Proofs/ATPClientFinal.v (maximal executions, the ghost `decoded`, `noticed`).  Model: ATP/Client.v with a
+   fault script (`se_fault = Some (n, f)`: the peer's (n+1)-th emission is the sticky fault f, nothing follows;
+   `se_wfail`: the write side fails), ATP/Handshake.v for ReadSchema and the v1 path.
 
-   FULL STATEMENTS (DESIGN §5 C08), kept visible; what is proved is marked.
-     C08_all_released              every Execute pending at, or started after, the fault returns Err - for every fault script
-                                   and schedule.  PROVED: the safety core for every session and schedule - (i) a pending
-                                   entry always has a live read loop (C08_pending_has_live_loop = the C06 invariant, which
-                                   does not assume a healthy peer), (ii) a loop that meets the fault takes the fatal exit
-                                   (C08_fault_is_fatal), (iii) the fatal exits resolve EVERY entry and clear readLoopRunning in
-                                   one step (C08_fatal_exit_releases_all, C08_server_fatal_releases_all), (iv) no execution is
-                                   infinite (C08_no_livelock).  NOT proved in Coq: the composition into "every maximal
-                                   execution ends with all callers Done" (needs the conservation invariant, see C06); it is
-                                   checked by forcing model schedules of fault sessions on the client and by the byte sweep.
-     C08_no_fabricated_success     a caller returns Ok only if an intact WorkDone for its run id was decoded.
-                                   PROVED as C08_success_only_from_workdone_partial (per step: an Ok result enters the entry map
-                                   only in the handling of a WorkDone of that run id; the error fan-out never writes Ok) and,
-                                   for v1, in full (C08_v1_success_iff_intact).  NOT proved: the lifting to an invariant over
-                                   schedules (callers copy their result from the entry map).
-     C08_readschema_errors         PROVED in full (sequential): ReadSchema succeeds iff the start message was written and an
-                                   intact hello with a supported version and a usable schema is the first item.
-     C08_close_returns             Close returns for every read-side fault script: NOT proved in Coq (same gap as above);
-                                   checked by every replayed fault session with Close.  With a failing WRITE side it is false:
-                                   C08_close_panics_refuted (D25, known finding). *)
+   `good_session` (see Properties/C06.v): distinct run ids, every call's script holds an event that ends the call, and
+   the scripted fault IS a fault of the stream (EOF, read error, garbage, partial message, a hello out of place) - a peer
+   that just stops answering on an intact stream is not a broken stream and is outside C08.
+
+     C08_all_released            PROVED: (a) every maximal execution of every good session - any fault position, any
+                                 schedule, write failures included - ends with EVERY Execute returned; (b) once the read
+                                 loop has taken its fatal exit on the broken stream (`noticed`, established by
+                                 C08_fatal_exit_notices), every Execute that has not returned yet - pending or started
+                                 later - returns an ERROR, in every continuation (C08_released_with_error).
+     C08_no_fabricated_success   PROVED at invariant level, for EVERY session and schedule: a caller's Ok implies that an
+                                 intact work-done message for its run id with that output was decoded by a read loop
+                                 (ghost field `decoded`).
+     C08_readschema_errors       PROVED (sequential): ReadSchema succeeds iff the start message was written and an intact
+                                 hello with a supported version and a usable schema is the first item.
+     C08_close_returns           PROVED: in every maximal execution of a good session without write failures Close has
+                                 returned nil and nothing the client started is left blocked.  With a failing WRITE side it
+                                 is false: C08_close_panics_refuted (D25, known finding). *)
 From Coq Require Import Lia.
-From Verif Require Import Base.Prelude Base.Str ATP.Msg ATP.Client ATP.Handshake Proofs.ATPClient Proofs.ATPClientFault.
+From Verif Require Import Base.Prelude Base.Str ATP.Msg ATP.Client ATP.Handshake Proofs.ATPClient Proofs.ATPClientFault
+  Proofs.ATPClientWitness Proofs.ATPClientInv Proofs.ATPClientFinal Proofs.ATPClientExamples.
 
+Theorem C08_all_released : forall (payload : Type) (se : session payload) ls s,
+  good_session se -> run (init se) ls = Some s -> final s ->
+  forall i c, nth_error (callers s) i = Some c -> caller_done c = true.
+Proof. intros payload se ls s G H F. apply final_all_done; auto. eapply inv_reachable; eauto. Qed.
+Print Assumptions C08_all_released.
+
+(* no reachable state of a good session with an unreturned Execute is stuck (the fault position, the schedule and the
+   write failures are arbitrary) *)
+Theorem C08_no_stuck : forall (payload : Type) (se : session payload) ls s,
+  good_session se -> run (init se) ls = Some s ->
+  forall i c, nth_error (callers s) i = Some c -> caller_done c = false -> exists l, step s l <> None.
+Proof. intros payload se ls s G H. apply inv_progress. eapply inv_reachable; eauto. Qed.
+Print Assumptions C08_no_stuck.
+
+(* in every reachable state of EVERY session the fatal exit of the read loop (taken when Decode met anything that is
+   not an intact message; invF: the fault then sits at the head of from_server, sticky) puts the client in a `noticed`
+   state: the stream is poisoned, no entry holds a success, any later loop starts with an empty buffer ... *)
+Theorem C08_fatal_exit_notices : forall (payload : Type) (se : session payload) ls (s s' : state payload) lo,
+  run (init se) ls = Some s -> cur s = Some lo -> l_pc lo = LFatal -> step s (LLoop 0) = Some s' -> noticed s'.
+Proof. exact reachable_fatal_exit_noticed. Qed.
+Print Assumptions C08_fatal_exit_notices.
+
+(* ... and from a noticed state on, whatever happens (any label list), an Execute that had not returned can only return
+   an error: the ones pending at the fault and the ones started later *)
+Theorem C08_released_with_error : forall (payload : Type) ls (s s' : state payload),
+  noticed s -> run s ls = Some s' ->
+  forall i v, result_at s i = None -> result_at s' i = Some v -> exists e, v = RErr e.
+Proof. exact noticed_run. Qed.
+Print Assumptions C08_released_with_error.
+
+Theorem C08_no_fabricated_success : forall (payload : Type) (se : session payload) ls s i c o d,
+  run (init se) ls = Some s -> nth_error (callers s) i = Some c -> c_pc c = CDone (ROk o d) ->
+  exists st lg, In (WorkDone (c_run c) st o d lg) (decoded s).
+Proof.
+  intros payload se ls s i c o d H Hc Hp.
+  assert (invD s) as ID by (eapply invD_run; [apply invD_init|exact H]).
+  exact (d_callers _ _ ID _ _ _ Hc Hp).
+Qed.
+Print Assumptions C08_no_fabricated_success.
+
+Theorem C08_close_returns : forall (payload : Type) (se : session payload) ls s,
+  good_session se -> se_wfail se = None -> se_close se = true -> run (init se) ls = Some s -> final s ->
+  closer s = KDone CloseOk /\ wg s = 0%nat /\ loop_live (cur s) = false /\
+  (forall i c, nth_error (callers s) i = Some c -> caller_done c = true /\ (c_spc c = SNone \/ c_spc c = SExit)).
+Proof.
+  intros payload se ls s G Hw Hc H F. apply final_closed; auto.
+  - eapply inv_reachable; eauto.
+  - eapply run_wr_none; eauto.
+  - intros E. apply (run_closer_none _ _ _ _ H) in E. cbn in E. rewrite Hc in E. discriminate.
+Qed.
+Print Assumptions C08_close_returns.
+
+(* the safety core, step by step, for every session *)
 Theorem C08_pending_has_live_loop : forall (payload : Type) (se : session payload) ls s,
   run (init se) ls = Some s -> has_pending (entries s) = true -> loop_live (cur s) = true /\ running s = true.
 Proof.
@@ -58,11 +110,11 @@ Theorem C08_no_livelock : forall (payload : Type) ls (s s' : state payload),
 Proof. intros payload ls s s' H. pose proof (run_length_bounded _ _ _ _ H). lia. Qed.
 Print Assumptions C08_no_livelock.
 
-Theorem C08_success_only_from_workdone_partial : forall (payload : Type) (s : state payload) lo m r o d,
+Theorem C08_handle_ok_only_from_workdone : forall (payload : Type) (s : state payload) lo m r o d,
   alookup r (entries (handle s lo m)) = Some (Some (ROk o d)) ->
   alookup r (entries s) = Some (Some (ROk o d)) \/ exists st lg, m = WorkDone r st o d lg.
 Proof. exact handle_ok_only_from_workdone. Qed.
-Print Assumptions C08_success_only_from_workdone_partial.
+Print Assumptions C08_handle_ok_only_from_workdone.
 
 Theorem C08_error_fanout_never_writes_success : forall (payload : Type) (s : state payload) (e : rerr) r o d,
   alookup r (entries (fan_out s (RErr e))) = Some (Some (ROk o d)) -> False.
@@ -79,7 +131,7 @@ Theorem C08_v1_success_iff_intact : forall (payload : Type) (w : bool) (ev : eve
 Proof. exact execute_v1_ok_iff. Qed.
 Print Assumptions C08_v1_success_iff_intact.
 
-(* D25 (known finding): write side fails after the handshake => Execute returns the write error, the read loop is
+(* D25 (known finding): write side fails right after the handshake => Execute returns the write error, the read loop is
    still blocked in Decode (wait group 1), Close cannot send client-done and panics when its 5 s timer fires *)
 Theorem C08_close_panics_refuted :
   exists s, run (init d25_session) d25_schedule = Some s /\ closer s = KDone ClosePanic /\
@@ -88,7 +140,16 @@ Theorem C08_close_panics_refuted :
 Proof. exact d25_close_panics. Qed.
 Print Assumptions C08_close_panics_refuted.
 
-(* non-vacuity *)
+(* non-vacuity: a session whose peer's first emission is replaced by EOF is a good session with Close and without write
+   failures; one of its maximal executions ends with the Execute failed (stream error), Close returned, wg = 0 *)
+Example C08_eof_session_is_good : good_session eof1 /\ se_wfail eof1 = None /\ se_close eof1 = true.
+Proof. exact eof1_good. Qed.
+
+Example C08_eof_session_maximal_execution :
+  exists s c, run (init eof1) eof1_schedule = Some s /\ final s /\
+              nth_error (callers s) 0 = Some c /\ c_pc c = CDone (RErr ErrStream) /\ closer s = KDone CloseOk /\ wg s = 0%nat.
+Proof. exact eof1_maximal. Qed.
+
 Example C08_readschema_example : read_schema true (EvHello (payload := unit) (Hello 3 true)) = RSOk 3
   /\ read_schema true (EvHello (payload := unit) (Hello 2 true)) = RSErr
   /\ read_schema true (EvHello (payload := unit) (Hello 3 false)) = RSErr
